@@ -10,6 +10,7 @@
 #include <set>
 #include <sstream>
 #include <sys/mman.h>
+#include <sys/personality.h>
 #include <sys/stat.h>
 #include <sys/wait.h>
 #include <unistd.h>
@@ -48,6 +49,8 @@ struct Shared {
     SharedBind out_binds[16];
     uint32_t n_nt;
     uint64_t nt[8192];
+    uint32_t plan_len;
+    char plan_text[1 << 20];
 };
 static Shared g_private_shared;
 static Shared *g_sh = &g_private_shared;
@@ -85,6 +88,9 @@ void ctx_clear() {
 extern "C" {
 volatile uint64_t sim_steps = 0;
 uint64_t sim_step_budget = 0;
+// > 0 while simulator code (allocator shim, scheduler hooks) runs: such code is
+// atomic with respect to the scheduler and is never traced as a task access
+volatile int sim_atomic_depth = 0;
 }
 void steps_begin(uint64_t budget) {
     sim_steps = 0;
@@ -139,6 +145,16 @@ Plan apply_binds(const Plan &p, const std::vector<Bind> &binds) {
     for (auto &b : binds)
         if (b.op < q.ops.size()) q.ops[b.op].set(b.arg, b.value);
     return q;
+}
+
+// the plan that reproduces exactly the violating case of `o`
+static Plan concretise(const Plan &p, const Outcome &o) {
+    if (!o.concrete_plan.empty()) {
+        Plan q;
+        std::string err;
+        if (Plan::from_text(o.concrete_plan, q, err)) return q;
+    }
+    return apply_binds(p, o.binds);
 }
 
 // ---------------------------------------------------------------------------
@@ -238,6 +254,8 @@ GuardedResult guarded_execute(Engine &e, const Plan &p, int timeout_s) {
         }
         sh->n_nt = (uint32_t)std::min<size_t>(o.nontrivial.size(), 8192);
         for (uint32_t i = 0; i < sh->n_nt; i++) sh->nt[i] = o.nontrivial[i];
+        sh->plan_len = (uint32_t)std::min<size_t>(o.concrete_plan.size(), sizeof(sh->plan_text) - 1);
+        memcpy(sh->plan_text, o.concrete_plan.data(), sh->plan_len);
         sh->done = 1;
         fflush(stdout);
         _exit(0);
@@ -256,6 +274,7 @@ GuardedResult guarded_execute(Engine &e, const Plan &p, int timeout_s) {
         for (uint32_t i = 0; i < sh->out_nbinds; i++)
             r.out.binds.push_back({sh->out_binds[i].op, sh->out_binds[i].arg, sh->out_binds[i].value});
         r.out.nontrivial.assign(sh->nt, sh->nt + sh->n_nt);
+        r.out.concrete_plan.assign(sh->plan_text, sh->plan_len);
     } else {
         r.died = true;
         std::string ctx = sh->ctx;
@@ -280,7 +299,10 @@ GuardedResult guarded_execute(Engine &e, const Plan &p, int timeout_s) {
                 cls = "hang";
                 extra = "wallclock";
             } else {
-                extra = std::string("SIG") + sigabbrev_np(sig);
+                // which signal ends a run after memory corruption depends on heap
+                // layout; the key only says that the process was killed
+                extra = "killed-by-signal";
+                r.how += std::string(" (SIG") + sigabbrev_np(sig) + ")";
             }
         }
         if (ctx.find(" phase=verify") != std::string::npos) {
@@ -491,6 +513,18 @@ static void print_result(const Outcome &o) {
 }
 
 int sim_main(int argc, char **argv) {
+    // Address-space randomisation is a nondeterminism source for anything that
+    // goes wrong after memory corruption (which signal, which report): every
+    // simulator process runs with it disabled.
+    {
+        int pers = personality(0xffffffff);
+        if (pers != -1 && !(pers & ADDR_NO_RANDOMIZE) && !getenv("SIM_NO_REEXEC")) {
+            if (personality(pers | ADDR_NO_RANDOMIZE) != -1) {
+                setenv("SIM_NO_REEXEC", "1", 1);
+                execv("/proc/self/exe", argv);
+            }
+        }
+    }
     if (argc < 3) {
         fprintf(stderr,
                 "usage: %s <engine> run|gen|exec|min|list ...\n"
@@ -541,7 +575,7 @@ int sim_main(int argc, char **argv) {
             printf("STDERR %s\n", json_escape(r.stderr_excerpt).c_str());
         const char *co = arg_value(argc, argv, "--concrete-out", nullptr);
         if (co) {
-            Plan q = apply_binds(p, r.out.binds);
+            Plan q = concretise(p, r.out);
             if (r.out.violation()) {
                 q.expect_class = r.out.cls;
                 q.expect_key = r.out.key;
@@ -566,7 +600,7 @@ int sim_main(int argc, char **argv) {
             printf("MIN no-violation\n");
             return 2;
         }
-        Plan q = apply_binds(p, r0.out.binds);
+        Plan q = concretise(p, r0.out);
         int tests = 0;
         Plan m = minimise(*e, q, r0.out.cls, r0.out.key, budget, &tests);
         m.save(outp);
@@ -616,7 +650,7 @@ int sim_main(int argc, char **argv) {
                        o.cls.c_str());
             if (o.violation()) {
                 viol++;
-                Plan q = apply_binds(p, o.binds);
+                Plan q = concretise(p, o);
                 q.expect_class = o.cls;
                 q.expect_key = o.key;
                 mkdir(cand.c_str(), 0777);
@@ -626,6 +660,13 @@ int sim_main(int argc, char **argv) {
                        (unsigned long long)seed, (unsigned long long)o.hash, o.cls.c_str(),
                        path.c_str(), o.key.c_str());
                 printf("D %s\n", json_escape(o.detail).c_str());
+                if (e->restart_after_violation()) {
+                    printf("STATS %s\n", stats_json(*e, runs, cases, viol, skips).c_str());
+                    printf("RESTART %llu\n", (unsigned long long)idx);
+                    fflush(stdout);
+                    if (ntf) fclose(ntf);
+                    _exit(0);
+                }
             }
             if ((runs & 1023) == 0) {
                 printf("STATS %s\n", stats_json(*e, runs, cases, viol, skips).c_str());
